@@ -29,6 +29,11 @@ def gen_tree(rng, max_nodes=10, links=True, odd_links=False):
             ck = rng.random()
             if ck < 0.8: content = (("# " if name.endswith((".gmi", ".gemini")) and rng.random() < 0.5 else "") + "SENTINEL-%d-%s" % (i, name)).encode("utf-8")
             elif ck < 0.86: content = b"SENTINEL-%d-\xff\xfe binary" % i
+            elif ck < 0.875:
+                # files whose size sits on the handler's limit (the checks run with max_file_size = 64): exactly the limit is served
+                size = rng.choice([63, 64, 64, 65])
+                head = ("SENTINEL-%d-sz%d-" % (i, size)).encode()
+                content = head + b"x" * (size - len(head))
             elif ck < 0.9:
                 # text-mode corners: CRLF / lone CR line ends, a byte order mark at the start or inside, a trailing CR
                 content = rng.choice([b"SENTINEL-%d-crlf\r\nsecond line\r\n", b"SENTINEL-%d-cr\rsecond\r\rthird", b"\xef\xbb\xbfSENTINEL-%d-bom\nx",
